@@ -988,6 +988,30 @@ async fn snapshot_served(folder: &Folder) -> Result<Value> {
               "desc": desc, "secrets": secrets}))
 }
 
+/// Value token of one encrypted entry.
+pub async fn decrypt_token(
+    vault: &sos_vault::Vault,
+    pk: &sos_core::crypto::PrivateKey,
+    id: &SecretId,
+    vc: &sos_core::VaultCommit,
+) -> String {
+    use sos_core::{decode, VaultCommit, VaultEntry};
+    use sos_vault::secret::{Secret, SecretMeta};
+    let VaultCommit(_, VaultEntry(meta_aead, secret_aead)) = vc;
+    let row = async {
+        let meta_blob = vault.decrypt(pk, meta_aead).await?;
+        let meta: SecretMeta = decode(&meta_blob).await?;
+        let secret_blob = vault.decrypt(pk, secret_aead).await?;
+        let secret: Secret = decode(&secret_blob).await?;
+        Ok::<_, anyhow::Error>(SecretRow::new(*id, meta, secret))
+    }
+    .await;
+    match row {
+        Ok(row) => values::digest_of(&row),
+        Err(e) => format!("?undecryptable:{e}"),
+    }
+}
+
 /// Decrypted content of a vault value (replayed log / persisted mirror).
 async fn snapshot_vault(vault: sos_vault::Vault, key: &AccessKey) -> Result<Value> {
     use sos_core::{decode, VaultCommit, VaultEntry};
